@@ -148,4 +148,33 @@ theorem emits_wrapped (row col : Nat) {bytes : List UInt8} {cmds : List KCmd} (h
   have := ((h1.append h2).append h).append h3
   simpa using this
 
+/-! ## where `handle` sends the cursor before a re-draw -/
+
+theorem span_digits (ds : List UInt8) (hd : ∀ b ∈ ds, isDigit b = true) (c : UInt8) (hc : isDigit c = false)
+    (r : List UInt8) :
+    (ds ++ c :: r).takeWhile isDigit = ds ∧ (ds ++ c :: r).dropWhile isDigit = c :: r := by
+  induction ds with
+  | nil => simp [hc]
+  | cons d ds ih =>
+    have h1 : isDigit d = true := hd d (by simp)
+    have := ih (fun b hb => hd b (by simp [hb]))
+    simp [h1, this.1, this.2]
+
+theorem parseCup_decimal (a b : Nat) (rest : List UInt8) :
+    parseCup (decimal a ++ 59 :: (decimal b ++ 72 :: rest)) = some (a - 1, b - 1) := by
+  have h1 := span_digits (decimal a) (decimal_dig a) 59 (by decide) (decimal b ++ 72 :: rest)
+  have h2 := span_digits (decimal b) (decimal_dig b) 72 (by decide) rest
+  unfold parseCup
+  simp only [h1.1, h1.2, h2.1, h2.2, if_true, decimal_ne_nil, ne_eq, not_false_eq_true, and_self,
+    readNat_decimal]
+
+theorem cursorTarget_wrapped (row col : Nat) (hr : row + 1 < 18446744073709551616)
+    (hc : col + 1 < 18446744073709551616) (rest : List UInt8) :
+    cursorTarget ([27, 55] ++ cursorTo row col ++ rest) = some (row, col) := by
+  have e : [27, 55] ++ cursorTo row col ++ rest
+      = 27 :: 55 :: 27 :: 91 :: (decimal (row + 1) ++ 59 :: (decimal (col + 1) ++ 72 :: rest)) := by
+    simp [cursorTo, satAdd1, hr, hc]
+  rw [e]
+  simp [cursorTarget, parseCup_decimal]
+
 end SurfProofs.Lemmas.KittyDraw
